@@ -209,15 +209,24 @@ def case_select(case):
                                 else:
                                     path = name
                                 variants.append((exists, where, path))
+                        # the base name GIVEN decides, also when it is a symbolic link to a file with another name
+                        variants.append(("link-out", "abs", os.path.join(root, name)))
+                        variants.append(("link-in", "abs", os.path.join(root, name)))
                         for exists, where, path in variants:
                             base = other if where == "relative" else None
                             if base:
                                 os.chdir(base)
                             full = os.path.join(os.getcwd(), path) if where == "relative" else path
                             try:
-                                if os.path.exists(full):
+                                if os.path.lexists(full):
                                     os.remove(full)
-                                if exists:
+                                if exists in ("link-out", "link-in"):
+                                    tgt = os.path.join(other, "linktarget.nopattern" if exists == "link-out" else "linktarget.xyz")
+                                    with open(tgt, "w") as fh:
+                                        fh.write("sentinel\n")
+                                    os.symlink(tgt, full)
+                                    counters["symlink_selections"] = counters.get("symlink_selections", 0) + 1
+                                elif exists:
                                     with open(full, "w") as fh:
                                         fh.write("sentinel\n")
                                 with audit.Watch(root) as w:
@@ -240,7 +249,7 @@ def case_select(case):
                             finally:
                                 if base:
                                     os.chdir(cwd0)
-                                if os.path.exists(full):
+                                if os.path.lexists(full):
                                     os.remove(full)
                         # oracle
                         mods_seen = {r[1] for r in observed if r[0] == "module"}
